@@ -318,6 +318,10 @@ pub struct HistCase {
     pub follower: bool,
     #[serde(default)]
     pub access: Access,
+    /// with HTTP access: mutations, lookups and non-following reads go through the `xs::client`
+    /// library (run inside the executor against its own socket) instead of the raw client
+    #[serde(default)]
+    pub client: bool,
     pub ops: Vec<Op>,
 }
 
@@ -684,13 +688,15 @@ pub fn hist_strategy(p: &Profile) -> BoxedStrategy<HistCase> {
         any::<bool>(),
         prop_oneof![3 => Just(true), 1 => Just(false)],
         proptest::collection::vec(op_strategy(p), 0..=p.max_ops),
+        proptest::bool::weighted(0.3),
     )
-        .prop_map(move |(layout, n_ctx, eager, follower, ops)| HistCase {
+        .prop_map(move |(layout, n_ctx, eager, follower, ops, client)| HistCase {
             layout,
             n_ctx,
             eager,
             follower,
             access,
+            client: client && access == Access::Http,
             ops,
         })
         .boxed()
@@ -728,6 +734,7 @@ pub struct Flags {
     pub gc_removed_with_neighbour: bool,
     pub http_follower: bool,
     pub refused_import_over_stored: bool,
+    pub via_client: bool,
 }
 
 impl Default for Flags {
@@ -752,6 +759,7 @@ impl Default for Flags {
             gc_removed_with_neighbour: false,
             http_follower: false,
             refused_import_over_stored: false,
+            via_client: false,
         }
     }
 }
@@ -770,6 +778,8 @@ pub struct Interp {
     /// (NDJSON, then SSE) read incrementally by the driver instead of a Store::read
     pub http_follower: Option<crate::httpx::HttpFollower>,
     pub follower_starts: u32,
+    /// HTTP operations go through `xs::client` (see HistCase::client)
+    pub via_client: bool,
     pub want_follower: bool,
     pub flags: Flags,
     pub checks: u64,
@@ -860,6 +870,7 @@ impl Interp {
             follower: None,
             http_follower: None,
             follower_starts: 0,
+            via_client: false,
             want_follower,
             flags: Flags::default(),
             checks: 0,
@@ -924,6 +935,38 @@ impl Interp {
             }
             HOut::Broken(m) => Err(Fail::new(Class::Http, m)),
             HOut::Infra(m) => Err(infra(format!("http connect: {m}"))),
+        }
+    }
+
+    /// One `xs::client` call, shaped like the raw client's outcomes: the library reports every
+    /// non-200/204 answer as an error text that begins with the status line.
+    fn client_call(&mut self, op: crate::exec::ClientOp) -> crate::httpx::HOut<Vec<u8>> {
+        use crate::httpx::HOut;
+        self.flags.via_client = true;
+        match self.ex().client(op) {
+            Ok(Ok(body)) => HOut::Ok(body),
+            Ok(Err(msg)) => {
+                let code: Option<u16> = msg.split_whitespace().next().and_then(|c| c.parse().ok());
+                match code {
+                    Some(c) if (300..600).contains(&c) => HOut::Status(c, msg),
+                    _ => HOut::Broken(format!("xs::client failed without an HTTP status: {msg}")),
+                }
+            }
+            Err(ExecErr::Died(e)) => HOut::Infra(format!("executor died: {e}")),
+            Err(e) => HOut::Broken(format!("xs::client call: {e}")),
+        }
+    }
+
+    fn client_frame(out: crate::httpx::HOut<Vec<u8>>, what: &str) -> crate::httpx::HOut<WFrame> {
+        use crate::httpx::HOut;
+        match out {
+            HOut::Ok(body) => match crate::wire::parse_json_deep(&body).map_err(|e| e.to_string()).and_then(|v| wframe_from_json(&v)) {
+                Ok(f) => HOut::Ok(f),
+                Err(e) => HOut::Broken(format!("{what}: the client returned {:?}: {e}", String::from_utf8_lossy(&body))),
+            },
+            HOut::Status(s, b) => HOut::Status(s, b),
+            HOut::Broken(m) => HOut::Broken(m),
+            HOut::Infra(m) => HOut::Infra(m),
         }
     }
 
@@ -1115,7 +1158,16 @@ impl Interp {
             if body.is_none() {
                 spec.hash = None;
             }
-            let out = crate::httpx::append(&sock, &spec, body, &how);
+            let out = if self.via_client {
+                let op = crate::exec::ClientOp::Append {
+                    spec: spec.clone(),
+                    content: body.map(b64),
+                };
+                let o = self.client_call(op);
+                Self::client_frame(o, "append")
+            } else {
+                crate::httpx::append(&sock, &spec, body, &how)
+            };
             self.http(out)?
         } else {
             self.ex().append(&spec, content.as_deref())
@@ -1199,7 +1251,14 @@ impl Interp {
         self.in_flight = Some(InFlight::Import(spec.clone()));
         let res = if self.use_http(None) {
             let sock = self.sock.clone().unwrap();
-            let out = crate::httpx::import(&sock, &spec);
+            let out = if self.via_client {
+                let o = self.client_call(crate::exec::ClientOp::Import {
+                    line: frame_json_for_import(&spec),
+                });
+                Self::client_frame(o, "import")
+            } else {
+                crate::httpx::import(&sock, &spec)
+            };
             match self.http(out)? {
                 Ok(echo) => {
                     // the route answers with the frame it stored
@@ -1296,7 +1355,28 @@ impl Interp {
             ReadPath::Stream => must("read", self.ex().read(&ropts))?,
             ReadPath::HttpNd | ReadPath::HttpSse => {
                 let sock = self.sock.clone().unwrap();
-                let out = crate::httpx::read(&sock, &ropts, path == ReadPath::HttpSse);
+                let sse = path == ReadPath::HttpSse;
+                let out = if self.via_client {
+                    use crate::httpx::HOut;
+                    // (the library's `sse` flag is without effect on the pinned tree: it sends its
+                    // Accept header after a default `Accept: */*` and the server looks at the first
+                    // one only. The rendering a client asks for is no listed property; NDJSON is
+                    // requested here and the SSE rendering is checked with the raw client.)
+                    match self.client_call(crate::exec::ClientOp::Cat { opts: ropts.clone(), sse: false }) {
+                        HOut::Ok(body) => {
+                            let parsed = crate::httpx::parse_ndjson(&body);
+                            match parsed {
+                                Ok(v) => HOut::Ok(v),
+                                Err(e) => HOut::Broken(format!("xs::client::cat: {e}")),
+                            }
+                        }
+                        HOut::Status(s, b) => HOut::Status(s, b),
+                        HOut::Broken(m) => HOut::Broken(m),
+                        HOut::Infra(m) => HOut::Infra(m),
+                    }
+                } else {
+                    crate::httpx::read(&sock, &ropts, sse)
+                };
                 let r = self.http(out)?;
                 must("GET /", r)?
             }
@@ -2166,7 +2246,17 @@ impl Interp {
                 self.in_flight = Some(InFlight::Remove(id));
                 if self.use_http(None) {
                     let sock = self.sock.clone().unwrap();
-                    let out = crate::httpx::remove(&sock, id);
+                    let out = if self.via_client {
+                        use crate::httpx::HOut;
+                        match self.client_call(crate::exec::ClientOp::Remove { id: id_str(id) }) {
+                            HOut::Ok(_) => HOut::Ok(()),
+                            HOut::Status(s, b) => HOut::Status(s, b),
+                            HOut::Broken(m) => HOut::Broken(m),
+                            HOut::Infra(m) => HOut::Infra(m),
+                        }
+                    } else {
+                        crate::httpx::remove(&sock, id)
+                    };
                     let r = self.http(out)?;
                     must("DELETE /<id>", r)?;
                 } else {
@@ -2231,7 +2321,20 @@ impl Interp {
                 let id = self.resolve_id(sel);
                 let got = if self.use_http(None) {
                     let sock = self.sock.clone().unwrap();
-                    let out = crate::httpx::get(&sock, id);
+                    let out = if self.via_client {
+                        use crate::httpx::HOut;
+                        let o = self.client_call(crate::exec::ClientOp::Get { id: id_str(id) });
+                        match Self::client_frame(o, "get") {
+                            HOut::Ok(f) => HOut::Ok(Some(f)),
+                            // (the library reports 404 as an error like every non-200 answer)
+                            HOut::Status(404, _) => HOut::Ok(None),
+                            HOut::Status(s, b) => HOut::Status(s, b),
+                            HOut::Broken(m) => HOut::Broken(m),
+                            HOut::Infra(m) => HOut::Infra(m),
+                        }
+                    } else {
+                        crate::httpx::get(&sock, id)
+                    };
                     let r = self.http(out)?;
                     must("GET /<id>", r)?
                 } else {
@@ -2289,6 +2392,7 @@ impl Interp {
 /// is handed back for further use (C20 exports from it).
 pub fn run_history_keep(case: &HistCase) -> Result<Interp, Fail> {
     let mut it = Interp::start_with(case.layout, case.follower, case.access)?;
+    it.via_client = case.client && case.access == Access::Http;
     must("clock", it.ex().clock(Some(0)))?;
     for _ in 0..case.n_ctx {
         it.step(&Op::Register { ttl: None })?;
@@ -2311,6 +2415,7 @@ pub fn run_history_keep(case: &HistCase) -> Result<Interp, Fail> {
 /// Run one generated history. `Ok(info)` = every oracle held.
 pub fn run_history(case: &HistCase) -> Result<(CaseInfo, Flags), Fail> {
     let mut it = Interp::start_with(case.layout, case.follower, case.access)?;
+    it.via_client = case.client && case.access == Access::Http;
     must("clock", it.ex().clock(Some(0)))?;
     for _ in 0..case.n_ctx {
         it.step(&Op::Register { ttl: None })?;
@@ -2368,6 +2473,7 @@ pub fn run_history(case: &HistCase) -> Result<(CaseInfo, Flags), Fail> {
         (fl.gc_removed_with_neighbour, "gc-with-neighbour-topic"),
         (fl.http_follower, "http-follow-stream"),
         (fl.refused_import_over_stored, "refused-import-over-stored-id"),
+        (fl.via_client, "through-xs-client-library"),
         (it.model.fuzzy_checks > 0, "had-three-valued-check"),
     ] {
         if on {
